@@ -1648,3 +1648,105 @@ VARIANTS += [
  dict(name='seed6-inline-lookup-tests-blob-cap', file=R, expect='flagged(cap-class)', find='\tif sigManifestDesc.Size > maxManifestSizeLimit {', replace='\tif sigManifestDesc.Size > maxBlobSizeLimit {'),
  dict(name='seed6-inline-manifest-cap-constant-raised', file=R, expect='flagged(cap-class)', find='\tmaxManifestSizeLimit = 4 * 1024 * 1024  // 4 MiB', replace='\tmaxManifestSizeLimit = 8 * 1024 * 1024  // 8 MiB'),
 ]
+
+# ---- round 5 (held-out batch): class R on the lookup side — the decoded layer/blob list travels inside a record.
+# One manifest decoder returning a small struct (subject, artifact type, annotations, blobs) is shared by the lookup
+# and the listing; the lookup reads the list out of the record. Members of the class: record by value / by pointer /
+# assembled by a constructor function / filled in by field assignments on the two branches of the lookup itself /
+# copied to another local / the field read twice. Broken counterparts: decode crossed, decode error dropped, helper
+# error dropped, a list that is not the decoded one put into the field, another field read, the field overwritten
+# after the decode, the record handed to a function that rewrites it.
+P5_BLOCK0 = ('\tvar signatureBlobs []ocispec.Descriptor\n' + LOOKUP_DEC0 + '\n\t\tif err := json.Unmarshal(manifestJSON, &sigManifest); err != nil {\n\t\t\treturn ocispec.Descriptor{}, err\n\t\t}\n\t\tsignatureBlobs = sigManifest.Layers\n'
+             + LOOKUP_ELSE0 + '\t\tvar sigManifest artifactspec.Artifact\n\t\tif err := json.Unmarshal(manifestJSON, &sigManifest); err != nil {\n\t\t\treturn ocispec.Descriptor{}, err\n\t\t}\n\t\tsignatureBlobs = sigManifest.Blobs\n\t}\n')
+P5_CALL = '\tsigManifest, err := parseManifest(sigManifestDesc.MediaType, manifestJSON)\n\tif err != nil {\n\t\treturn ocispec.Descriptor{}, err\n\t}\n'
+P5_READ = '\tsignatureBlobs := sigManifest.blobs\n'
+P5_IMG_LIT = '\t\treturn manifestView{\n\t\t\tsubject:      image.Subject,\n\t\t\tartifactType: image.Config.MediaType,\n\t\t\tannotations:  image.Annotations,\n\t\t\tblobs:        image.Layers,\n\t\t}, nil\n'
+P5_ART_LIT = '\treturn manifestView{\n\t\tsubject:      artifact.Subject,\n\t\tartifactType: artifact.ArtifactType,\n\t\tannotations:  artifact.Annotations,\n\t\tblobs:        artifact.Blobs,\n\t}, nil\n'
+P5_ART_DEC = '\tvar artifact artifactspec.Artifact\n\tif err := json.Unmarshal(manifestJSON, &artifact); err != nil {\n\t\treturn manifestView{}, err\n\t}\n'
+P5_VIEW = r'''
+// manifestView is the part of a signature manifest candidate that notation
+// looks at, independent of the manifest flavour it was decoded from.
+type manifestView struct {
+	subject      *ocispec.Descriptor
+	artifactType string
+	annotations  map[string]string
+	blobs        []ocispec.Descriptor
+}
+
+func parseManifest(mediaType string, manifestJSON []byte) (manifestView, error) {
+	// OCI image manifest
+	if mediaType == ocispec.MediaTypeImageManifest {
+		var image ocispec.Manifest
+		if err := json.Unmarshal(manifestJSON, &image); err != nil {
+			return manifestView{}, err
+		}
+''' + P5_IMG_LIT + '''	}
+
+	// OCI artifact manifest
+''' + P5_ART_DEC + P5_ART_LIT + '''}
+'''
+P5_VIEW_PTR = (P5_VIEW.replace('(manifestView, error)', '(*manifestView, error)').replace('return manifestView{}, err', 'return nil, err').replace('return manifestView{\n', 'return &manifestView{\n'))
+P5_CTOR = '\nfunc newManifestView(subject *ocispec.Descriptor, artifactType string, annotations map[string]string, blobs []ocispec.Descriptor) manifestView {\n\treturn manifestView{subject: subject, artifactType: artifactType, annotations: annotations, blobs: blobs}\n}\n'
+P5_VIEW_CTOR = sub(sub(P5_VIEW, P5_IMG_LIT, '\t\treturn newManifestView(image.Subject, image.Config.MediaType, image.Annotations, image.Layers), nil\n'),
+                   P5_ART_LIT, '\treturn newManifestView(artifact.Subject, artifact.ArtifactType, artifact.Annotations, artifact.Blobs), nil\n') + P5_CTOR
+P5_LOOP = sub(sub(P4_LOOP_MERGED, '!isManifestMediaType(node.MediaType)', 'node.MediaType != artifactspec.MediaTypeArtifactManifest && node.MediaType != ocispec.MediaTypeImageManifest'),
+              'parseReferrerManifest(node.MediaType, fetched)', 'parseManifest(node.MediaType, fetched)')
+P5_TYPE_ONLY = '\ntype manifestView struct {\n\tsubject      *ocispec.Descriptor\n\tartifactType string\n\tannotations  map[string]string\n\tblobs        []ocispec.Descriptor\n}\n'
+P5_INLINE = ('\tvar view manifestView\n' + LOOKUP_DEC0 + '\n\t\tif err := json.Unmarshal(manifestJSON, &sigManifest); err != nil {\n\t\t\treturn ocispec.Descriptor{}, err\n\t\t}\n\t\tview.artifactType = sigManifest.Config.MediaType\n\t\tview.blobs = sigManifest.Layers\n'
+             + LOOKUP_ELSE0 + '\t\tvar sigManifest artifactspec.Artifact\n\t\tif err := json.Unmarshal(manifestJSON, &sigManifest); err != nil {\n\t\t\treturn ocispec.Descriptor{}, err\n\t\t}\n\t\tview.artifactType = sigManifest.ArtifactType\n\t\tview.blobs = sigManifest.Blobs\n\t}\n\tsignatureBlobs := view.blobs\n')
+P5_LEN0 = '\tif len(signatureBlobs) != 1 {\n\t\treturn ocispec.Descriptor{}, fmt.Errorf("signature manifest requries exactly one signature envelope blob, got %d", len(signatureBlobs))\n\t}\n'
+def p5(call, helpers, loop=None, more=()):
+    e = [tail(helpers.lstrip('\n'))] + list(more)
+    if loop is not None:
+        e.append((R, LOOP0, loop))
+    return dict(file=R, find=P5_BLOCK0, replace=call, edits=e)
+
+VARIANTS += [
+ dict(name='p5-lookup-record-decoder-shared-with-listing', expect='silent', **p5(P5_CALL + P5_READ, P5_VIEW, P5_LOOP),
+      why='held-out refactoring: one decoder returning a value record, the lookup reads the blob list out of it'),
+ dict(name='p5-lookup-record-by-value', expect='silent', **p5(P5_CALL + P5_READ, P5_VIEW)),
+ dict(name='p5-lookup-record-by-pointer', expect='silent', **p5(P5_CALL + P5_READ, P5_VIEW_PTR)),
+ dict(name='p5-lookup-record-by-pointer-shared-with-listing', expect='silent', **p5(P5_CALL + P5_READ, P5_VIEW_PTR, P5_LOOP)),
+ dict(name='p5-lookup-record-built-by-constructor', expect='silent', **p5(P5_CALL + P5_READ, P5_VIEW_CTOR)),
+ dict(name='p5-lookup-record-filled-on-branches', expect='silent', **p5(P5_INLINE, P5_TYPE_ONLY)),
+ dict(name='p5-lookup-record-copied-to-local', expect='silent', **p5(P5_CALL + '\tview := sigManifest\n\tsignatureBlobs := view.blobs\n', P5_VIEW)),
+ dict(name='p5-lookup-record-field-read-in-place', expect='silent',
+      **p5(P5_CALL, P5_VIEW, more=[(R, P5_LEN0, P5_LEN0.replace('signatureBlobs', 'sigManifest.blobs')), (R, LOOKUP_RET0, '\treturn sigManifest.blobs[0], nil\n}\n')])),
+ # broken
+ dict(name='p5-lookup-record-decode-crossed', expect='flagged(lookup/decode-matches-media-type)',
+      **p5(P5_CALL + P5_READ, sub(P5_VIEW, '\tif mediaType == ocispec.MediaTypeImageManifest {\n', '\tif mediaType != ocispec.MediaTypeImageManifest {\n'))),
+ dict(name='p5-lookup-record-decode-keyed-by-constant', expect='flagged(lookup/decode-matches-media-type)',
+      **p5(sub(P5_CALL, 'parseManifest(sigManifestDesc.MediaType, manifestJSON)', 'parseManifest(ocispec.MediaTypeImageManifest, manifestJSON)') + P5_READ, P5_VIEW),
+      why='every signature manifest is decoded as an image manifest, whatever its media type'),
+ dict(name='p5-lookup-record-decode-error-ignored', expect='flagged(lookup/decode-error)',
+      **p5(P5_CALL + P5_READ, sub(P5_VIEW, P5_ART_DEC, '\tvar artifact artifactspec.Artifact\n\t_ = json.Unmarshal(manifestJSON, &artifact)\n'))),
+ dict(name='p5-lookup-record-helper-error-ignored', expect='flagged(lookup/decode-error)',
+      **p5('\tsigManifest, _ := parseManifest(sigManifestDesc.MediaType, manifestJSON)\n' + P5_READ, P5_VIEW)),
+ dict(name='p5-lookup-record-config-as-blob', expect='flagged(lookup/exactly-one-blob)',
+      **p5(P5_CALL + P5_READ, sub(P5_VIEW, '\t\t\tblobs:        image.Layers,\n', '\t\t\tblobs:        []ocispec.Descriptor{image.Config},\n')),
+      why='exactly one element, but it is the config descriptor, not a layer of the decoded manifest'),
+ dict(name='p5-lookup-record-by-pointer-config-as-blob', expect='flagged(lookup/exactly-one-blob)',
+      **p5(P5_CALL + P5_READ, sub(P5_VIEW_PTR, '\t\t\tblobs:        image.Layers,\n', '\t\t\tblobs:        []ocispec.Descriptor{image.Config},\n'))),
+ dict(name='p5-lookup-record-other-field-read', expect='flagged(lookup/exactly-one-blob)',
+      **p5(P5_CALL + '\tsignatureBlobs := sigManifest.related\n',
+           sub(sub(sub(P5_VIEW, '\tblobs        []ocispec.Descriptor\n}\n', '\tblobs        []ocispec.Descriptor\n\trelated      []ocispec.Descriptor\n}\n'),
+                   '\t\t\tblobs:        image.Layers,\n', '\t\t\tblobs:        image.Layers,\n\t\t\trelated:      []ocispec.Descriptor{image.Config},\n'),
+               '\t\tblobs:        artifact.Blobs,\n', '\t\tblobs:        artifact.Blobs,\n\t\trelated:      []ocispec.Descriptor{*artifact.Subject},\n')),
+      why='the record has two lists; the lookup takes its blob from the one that is not the layer/blob list'),
+ dict(name='p5-lookup-record-field-overwritten', expect='flagged(lookup/exactly-one-blob)',
+      **p5(P5_CALL + '\tif len(sigManifest.blobs) > 1 {\n\t\tsigManifest.blobs = sigManifest.blobs[:1]\n\t}\n' + P5_READ, P5_VIEW),
+      why='the lookup trims the decoded list to one element before testing its length: manifests with several blobs are accepted'),
+ dict(name='p5-lookup-record-rewritten-by-callee', expect='flagged(lookup/exactly-one-blob)',
+      **p5(P5_CALL + '\tnormalise(&sigManifest)\n' + P5_READ, P5_VIEW + '\nfunc normalise(v *manifestView) {\n\tif len(v.blobs) > 1 {\n\t\tv.blobs = v.blobs[:1]\n\t}\n}\n')),
+ dict(name='p5-lookup-record-by-pointer-rewritten-by-caller', expect='flagged(lookup/exactly-one-blob)',
+      **p5(P5_CALL + '\tif len(sigManifest.blobs) > 1 {\n\t\tsigManifest.blobs = sigManifest.blobs[:1]\n\t}\n' + P5_READ, P5_VIEW_PTR)),
+ dict(name='p5-lookup-record-constructor-given-config', expect='flagged(lookup/exactly-one-blob)',
+      **p5(P5_CALL + P5_READ, sub(P5_VIEW_CTOR, 'image.Annotations, image.Layers), nil', 'image.Annotations, []ocispec.Descriptor{image.Config}), nil'))),
+ dict(name='p5-lookup-record-constructor-drops-argument', expect='flagged(lookup/exactly-one-blob)',
+      **p5(P5_CALL + P5_READ, sub(P5_VIEW_CTOR, 'annotations: annotations, blobs: blobs}', 'annotations: annotations, blobs: []ocispec.Descriptor{*subject}}')),
+      why='the constructor puts the subject where the blobs belong'),
+ dict(name='p5-lookup-record-filled-on-branches-one-wrong', expect='flagged(lookup/exactly-one-blob)',
+      **p5(sub(P5_INLINE, '\t\tview.blobs = sigManifest.Layers\n', '\t\tview.blobs = []ocispec.Descriptor{sigManifest.Config}\n'), P5_TYPE_ONLY)),
+ dict(name='p5-lookup-record-filled-on-branches-crossed', expect='flagged(lookup/decode-matches-media-type)',
+      **p5(sub(P5_INLINE, '\tif sigManifestDesc.MediaType == ocispec.MediaTypeImageManifest {\n', '\tif sigManifestDesc.MediaType != ocispec.MediaTypeImageManifest {\n'), P5_TYPE_ONLY)),
+]
